@@ -165,6 +165,8 @@ structure DSt (iv : Nat) where
   ents : List (String × Ent (Reg.regAgg iv)) := []
   wents : List (String × Wal.Ent Bag.bagT) := []
   fault : Bool := false
+  /-- disk back-end (from the `config` line) -/
+  disk : Bool := false
   /-- implementation side: last observed view / state per handle -/
   iviews : List (String × OView) := []
   istate : List (String × String) := []
@@ -308,7 +310,7 @@ def modelStep {iv : Nat} (d : DSt iv) (op : List String) : Option (MOut iv) :=
     let i ← i.toNat?
     let items ← parseItems items
     let e := d.went h
-    let r := Wal.add e i ⟨0, items⟩ d.fault
+    let r := Wal.add e i ⟨0, items⟩ d.fault d.disk
     let ret := match r.2 with | .ok _ => "ok" | _ => "err:kv"
     pure { d := { d with wents := sset d.wents h r.1 }, ret := ret,
            view := some (wView bagRender r.1.kv),
@@ -556,9 +558,9 @@ def stepD {iv} (prop : String) (d : DSt iv) (line : String) : DSt iv × String :
 def step (st : St) (line : String) : St × String :=
   let op := words (splitObs line).1
   match op with
-  | ["config", ivS, _] =>
+  | ["config", ivS, backend] =>
     let iv := natOr ((ivS.drop 3).toString) 1
-    (⟨iv, st.prop, {}⟩, "ok config:" ++ ivS)
+    (⟨iv, st.prop, { disk := backend == "backend=disk" }⟩, "ok config:" ++ ivS)
   | _ =>
     let r := stepD st.prop st.d line
     (⟨st.iv, st.prop, r.1⟩, r.2)
